@@ -1240,6 +1240,34 @@ fn cmd_c07(seed: u64, n: u64, ops_path: &str, impl_path: &str) -> Result<()> {
         cases += 1;
         writeln!(ops, "{}", summary_line(&wasm)?)?;
         let res = trampoline(&wasm);
+        // the file-based entry point the CLI uses must do the same as `apply` on the parsed module: to another
+        // path, onto an existing file, and in place
+        {
+            let dir = std::path::Path::new(ops_path).parent().map(|p| p.to_path_buf()).unwrap_or_else(|| std::path::PathBuf::from("."));
+            let (a, b) = (dir.join(format!("c07-{}-in.wasm", seed)), dir.join(format!("c07-{}-out.wasm", seed)));
+            std::fs::write(&a, &wasm)?;
+            std::fs::write(&b, b"stale contents of an earlier run")?;
+            let r1 = shopify_function_trampoline::trampoline_existing_module(&a, &b);
+            let r2 = shopify_function_trampoline::trampoline_existing_module(&a, &a);
+            match (&res, r1.is_ok(), r2.is_ok()) {
+                (Ok(out), true, true) => {
+                    if &std::fs::read(&b)? != out {
+                        failures.push(format!("case {} ({}): the file written by trampoline_existing_module differs from apply()'s module", i, vname));
+                    }
+                    if &std::fs::read(&a)? != out {
+                        failures.push(format!("case {} ({}): trampolining a file in place leaves something else than apply()'s module ({} bytes)", i, vname, std::fs::read(&a)?.len()));
+                    }
+                }
+                (Err(_), false, false) => {
+                    if std::fs::read(&a)? != wasm {
+                        failures.push(format!("case {} ({}): a refused in-place run changed the file", i, vname));
+                    }
+                }
+                (r, x, y) => failures.push(format!("case {} ({}): apply() {} but trampoline_existing_module {} / in place {}", i, vname, if r.is_ok() { "accepts" } else { "refuses" }, if x { "accepts" } else { "refuses" }, if y { "accepts" } else { "refuses" })),
+            }
+            let _ = std::fs::remove_file(&a);
+            let _ = std::fs::remove_file(&b);
+        }
         match res {
             Err(e) => {
                 writeln!(imp, "reject {}", classify(&format!("{:#}", e)))?;
